@@ -538,7 +538,7 @@ fn fuzz_campaigns(run: &mut Run, stats: &mut Stats, fixtures: &[String]) {
         let out = std::process::Command::new("cargo")
             .current_dir(format!("{VERIF_DIR}/harness"))
             .env("CARGO_NET_OFFLINE", "true")
-            .args(["+nightly", "fuzz", "run", "-s", "none", "c17"])
+            .args(["+nightly", "fuzz", "run", "-s", "none", "--no-cfg-fuzzing", "c17"])
             .arg(dir)
             .arg("--")
             .arg(format!("-runs={runs}"))
